@@ -33,7 +33,9 @@ def gen_script(rng, kind, n_episodes=None, enabled=None, final_packets=None):
     sends = []        # (script index, relative time) hints for write-fault episodes
     for _ in range(n_episodes):
         for _ in range(rng.choice([0, 0, 1, 2, 3, 6, 9])):
-            script.append({"a": rng.choice(["refuse", "refuse", "fail"]), "lat": rng.choice([0.0, 0.001, 0.05, 0.5])})
+            # refusals are instant; failing connects (timeouts, unreachable hosts) can take longer than the back-off itself
+            a_ = rng.choice(["refuse", "refuse", "fail"])
+            script.append({"a": a_, "lat": rng.choice([0.0, 0.001, 0.05, 0.5]) if a_ == "refuse" or rng.random() < 0.6 else rng.choice([0.7, 2.5, 12.0])})
         f = rng.choice(enabled)
         n = rng.randrange(0, 5)
         tags = list(range(tag, tag + n))
